@@ -11,7 +11,7 @@ pub trait Case: Send + Sync {
     fn backend(&self) -> &'static str;
     /// sizes for the evidence: ops, slots, tables, cells, decoded cells
     fn describe(&self) -> Value;
-    /// every single fault (F1–F4); `units`: basis elements receiving the +1 in F2–F4
+    /// every single fault (F1–F5); `units`: basis elements receiving the +1 in F2–F5
     fn faults(&self, units: &[usize]) -> Vec<Fault>;
     fn site(&self, f: &Fault) -> Site;
     fn evaluate(&self, f: &Fault) -> Outcome;
@@ -61,7 +61,7 @@ impl<B: Backend> Case for Fixture<B> {
         })
     }
     fn faults(&self, units: &[usize]) -> Vec<Fault> {
-        self.enumerate(units)
+        self.enumerate_all(units)
     }
     fn site(&self, f: &Fault) -> Site {
         Fixture::site(self, f)
